@@ -215,7 +215,7 @@ PROPS["C10"] = {
              "cache has never seen. Distinct by hash(roots, messages, op lists)."),
     "assumptions": ["messages are cloned per call: the property is about the shared codec, not about sharing one message between goroutines"],
     "lanes": [
-        lane("TestFresh", "fresh", 400, 2000, shards=16, gomaxprocs_cycle=[2, 3, 4, 8, 16], must_classes=["cold-type-contended", "recursive-types"]),
+        lane("TestFresh", "fresh", 400, 2000, shards=16, gomaxprocs_cycle=[2, 3, 4, 8, 16], must_classes=["cold-type-contended", "recursive-types", "unbuildable-type", "types-in-three-packages", "message-outside-encoder-domain"]),
         lane("TestGlobal", "global", 300, 1500, shards=8, gomaxprocs_cycle=[2, 4, 8, 16], must_classes=["cold-type-contended"]),
     ],
 }
@@ -311,7 +311,7 @@ PROPS["C13"] = {
              "last of its file. Distinct by hash(final sources, edit kinds)."),
     "assumptions": [],
     "lanes": [
-        lane("TestAppend", "append", 150, 800, shards=16, must_classes=["not-last-in-file", "edit:option-to-enum", "edit:field-to-object", "edit:declaration-to-file", "name:shadows-top-level-type", "name:sorts-first", "name:option-ends-in-unspecified", "name:derives-existing-type-name"]),
+        lane("TestAppend", "append", 150, 800, shards=16, must_classes=["not-last-in-file", "edit:option-to-enum", "edit:field-to-object", "edit:declaration-to-file", "name:shadows-top-level-type", "name:sorts-first", "name:option-ends-in-unspecified", "name:derives-existing-type-name", "name:option-with-number-in-use"]),
     ],
 }
 
